@@ -10,6 +10,7 @@ NV == Rec[1].nmax
 K == Rec[1].k
 PD == 6
 CONSTANT Enforce
+TwinProp == IF Rec[1].mode = "c18" THEN "C18" ELSE "C16"
 VARIABLES l, nvars, ord, node, root, den, loose, canon, contents, hashes
 INSTANCE BddApi
 vars == <<l, nvars, ord, node, root, den, loose, canon, contents, hashes>>
@@ -22,12 +23,14 @@ EnfC08 == {"C08"}
 EnfC10 == {"C10"}
 EnfC11 == {"C11"}
 EnfC12 == {"C12"}
+EnfC18 == {"C18"}
 EnfC16 == {"C16"}   \* cache transparency: the twin builder with a tiny lossy cache returns the same diagrams
 EnfAll == {"C01", "C02", "C05", "C07", "C08", "C10", "C11", "C12", "C16"}
 
 Producers == {"var", "newvar", "neg", "and", "or", "xor", "iff", "ite", "cond", "condm", "exists",
-              "compose", "andl", "orl", "cnf", "cnfa", "expr", "plan", "smooth"}
-Queries == {"eq", "recheck", "eval", "count", "wmc", "uwmc", "semhash", "mmap", "meu", "bb"}
+              "compose", "andl", "orl", "cnf", "cnfa", "expr", "plan", "smooth", "low", "high"}
+Queries == {"eq", "recheck", "eval", "count", "wmc", "uwmc", "semhash", "mmap", "meu", "bb",
+            "topvar", "mc", "wmcr", "wmcc", "wmcp", "json", "cnt"}
 
 Init ==
   /\ l = 2
@@ -43,6 +46,7 @@ Step ==
      /\ CASE e.ev = "reset" -> ResetState(e.n0, e.order) /\ UNCHANGED hashes
           [] e.ev \in Producers -> Produce(e)
           [] e.ev \in Queries -> Query(e)
+          [] e.ev = "panicpair" -> Req(TwinProp, e.npanic = e.cpanic) /\ UNCHANGED bvars   \* one side panicked, the other did not
 
 Spec == Init /\ [][Step]_vars
 
